@@ -12,6 +12,7 @@ from __future__ import annotations
 import itertools, random
 
 CLASSES = ("Connectivity", "Structure", "Molecule", "ConformerEnsemble")
+CLASSES_Q = CLASSES + ("Substructure",)      # query-only traces (no edits): also a Substructure view of a larger molecule
 
 
 def _molli():
@@ -112,6 +113,21 @@ def build(case, cls=None):
         obj = mc.Molecule(c)
     elif cls == "ConformerEnsemble":
         obj = mc.ConformerEnsemble(mc.Molecule(c))
+    elif cls == "Substructure":
+        # the case's graph as a VIEW of a larger molecule: two foreign atoms come first (one of them bonded into the
+        # selection) and the selected atoms stand in REVERSE order in the parent, so that positions in the queried graph
+        # and indices in the atoms' owner differ for every atom (seeded change C15-k)
+        n = len(atoms)
+        par = mc.Connectivity(n_atoms=0)
+        x1, x2 = mc.Atom(mc.Element.F, label="x1"), mc.Atom(mc.Element.Cl, label="x2")
+        for a in [x1, x2] + atoms[::-1]:
+            par.append_atom(a)
+        if n:
+            par.connect(x1, atoms[0])
+        for b in c.bonds:
+            par.append_bond(b)
+        pm = mc.Molecule(par)
+        obj = mc.Substructure(pm, [2 + (n - 1 - j) for j in range(n)])
     else:
         raise ValueError(cls)
     return obj, list(obj.atoms), list(obj.bonds)
@@ -420,7 +436,7 @@ def job_random(lo, hi, seed, nmax):
         n = rnd.randint(2, nmax) if nmax <= 12 else rnd.randint(13, nmax)
         style = "mol" if rnd.random() < 0.7 else "gnp"
         edges = random_graph(rnd, n, style)
-        cls = rnd.choice(CLASSES)
+        cls = rnd.choice(CLASSES_Q)
         case = dress(n, edges, rnd, els=EL_ANY, bts=BT_ANY, cls=cls)
         starts = None if n <= 10 else sorted(rnd.sample(range(1, n + 1), 6))
         out.append(_trace(f"r{nmax}-{i}-t", case, traversal_queries(case, rnd, starts=starts, both_apis=False)))
@@ -435,7 +451,7 @@ def job_random(lo, hi, seed, nmax):
             tb = BT_MATCH
         else:
             tb = BT_ANY
-        tcase = dress(n, edges, rnd, els=EL_TGT if rnd.random() < 0.8 else ("C",), bts=tb, cls=rnd.choice(CLASSES))
+        tcase = dress(n, edges, rnd, els=EL_TGT if rnd.random() < 0.8 else ("C",), bts=tb, cls=rnd.choice(CLASSES_Q))
         deco = rnd.random() < 0.6
         if deco:
             decorate(tcase, rnd, "target")
